@@ -2,7 +2,7 @@
 # usage: tools/confirm_seed.sh <Cxx> <n>
 # Confirms a seeded change in the scratch worktree /tmp/seed/<Cxx>: with the patch the repository's
 # tests pass and the demonstration fails; without it the demonstration passes.
-ID="$1"; N="$2"; W=/tmp/seed/$ID; O=/tmp/seed/$ID-out
+ID="$1"; N="$2"; S=${SEED_DIR:-/tmp/seed}; W=$S/$ID; O=$S/$ID-out
 cd "$W" || exit 2
 git checkout -q -- . ; rm -rf tests/demo$N.rs examples/demo$N.rs
 place=$(head -1 "$O/demo$N.rs" | grep -oE "(tests|examples)/[A-Za-z0-9_]+\.rs" | head -1)
